@@ -174,6 +174,31 @@ def run_shard(sh, tier, seed):
                             if st2 != "ok" or not torch.equal(a2, attr):
                                 rec.violation("dls:repeated_call_differs", case)
                 rec.observe(sub, S, bs)
+    # library defaults: n_shuffles = 20, batch_size = 32, references = dinucleotide_shuffle (the values ordinary callers use)
+    if sh["src"] == "dinuc":
+        argD = dict(args=(A,)) if sh["use_arg"] else {}
+        canon20 = []
+        for e in range(3):
+            st, val = call(deep_lift_shap, model, X[[e]], batch_size=20, random_state=3, device="cpu", return_references=True,
+                           **(dict(args=(A[[e]],)) if sh["use_arg"] else {}))
+            canon20.append(val if st == "ok" else None)
+        for bs in (None, 7, 20, 33, 64):
+            kwb = {} if bs is None else dict(batch_size=bs)
+            st, val = call(deep_lift_shap, model, X, random_state=3, device="cpu", return_references=True, **kwb, **argD)
+            rec.case(1, 1)
+            rec.count("traces_validated_against_impl")
+            case = dict(fn="deep_lift_shap", model=sk, n_shuffles="default(20)", batch_size=bs or "default(32)", source="dinuc", args=sh["use_arg"], seed=seed)
+            if st != "ok":
+                if all(c is None for c in canon20):
+                    continue
+                rec.violation("dls:raises", case, observed=val)
+                continue
+            for e in range(3):
+                if canon20[e] is None:
+                    continue
+                if not torch.equal(val[1][e], canon20[e][1][0]) or (val[0][e] - canon20[e][0][0]).abs().max().item() > tol * max(1.0, canon20[e][0][0].abs().max().item()):
+                    rec.violation("dls:attributions_depend_on_batching", dict(case, position=e), msg="default n_shuffles: result differs from the single-example run")
+                    break
     # call order: A ; B (a differently configured call, incl. a custom rescale rule) ; A again -> identical to the first A
     def scaled_rule(module, grad_input, grad_output):
         from tangermeme.deep_lift_shap import _nonlinear
